@@ -297,6 +297,8 @@ def diff_paths(a, b, path=''):
     if type(a) is not type(b):
         return ['%s: %r -> %r' % (path, a, b)]
     if isinstance(a, dict):
+        if (not a or not b) and a != b:
+            return ['%s: %r -> %r' % (path, a, b)]
         out = []
         for k in sorted(set(a) | set(b), key=repr):
             if k not in a or k not in b:
